@@ -692,12 +692,19 @@ package url
 //@   ensures result == ((u.fragment == nil || len(*u.fragment) == 0) ? "" : *u.fragment)   [C19]
 //@ func (*Url).ValidationErrors
 //@   requires u != nil
+//@ func isSerializedIPv4
+//@   ensures result ==> (len(s) >= 7 && (forall k int :: 0 <= k && k < len(s) ==> (specIsDigit(s[k]) || s[k] == '.')))   [C19]
+//@   loop 1 invariant 0 <= i && i <= len(s) && 0 <= octets && octets <= i && 0 <= digits && digits <= i && 0 <= value && value <= 255
+//@   loop 1 invariant i >= 2 * octets + digits
+//@   loop 1 invariant forall k int :: 0 <= k && k < i ==> (specIsDigit(s[k]) || s[k] == '.')
+//@   loop 1 decreases len(s) - i
 //@ func (*Url).IsIPv4
-//@   requires u != nil
-//@   ensures result == u.isIPv4
+//@   requires wf(u)
+//@   ensures result ==> (u.host != nil && special(u, u.scheme))   [C19]
+//@   ensures result ==> (forall k int :: 0 <= k && k < len(*u.host) ==> (specIsDigit((*u.host)[k]) || (*u.host)[k] == '.'))   [C19]
 //@ func (*Url).IsIPv6
 //@   requires u != nil
-//@   ensures result == u.isIPv6
+//@   ensures result == (u.host != nil && specHasPrefix(*u.host, "["))   [C19]
 //@ func (*Url).DecodedPort
 //@   requires wf(u)
 //@   ensures u.port != nil ==> result == specAtoiVal(*u.port)   [C19]
